@@ -28,7 +28,8 @@ EXPLANATION = (
     "seed is given) in reset; every Generator object is seeded from the seeded global source; R3.5 no seeded-RNG draw "
     "is control-dependent on an output switch (SIM_OUTPUT.*, show/markdown flags, log levels); R3.6 identifiers never order "
     "behaviour: no sorted()/min()/max()/sort() over a mapping keyed by uuid4 (recognised from its `[x.uuid] = ...` stores) or "
-    "over its keys()/items(), and no sort key that reads .uuid. NOT decided: equality "
+    "over its keys()/items(), and no sort key that reads .uuid; R3.7 = C04's R4.2 (an output switch guards logging statements "
+    "only) applied here; R3.1 also inventories sources handed over uncalled (default_factory=np.random.default_rng). NOT decided: equality "
     "of trajectories, float reproducibility, behaviour of third-party libraries."
 )
 TECHNIQUE = "static: inventory of entropy/clock sources against a frozen table, taint of variable-width values into length measurements, set-iteration order analysis, CFG seeding discipline"
@@ -110,6 +111,21 @@ def r3_1(ctx: Ctx) -> List[Tuple[Optional[FuncInfo], str, ast.Call, str]]:
                     k = "seeded"
                 if k:
                     sites.append((fn, path, n, k))
+    # a source handed over uncalled (Field(default_factory=np.random.default_rng), key=random.random ...): whoever calls it gets
+    # an unseeded generator / value - inventoried like a call without a seed argument
+    for fn, path, root in _scopes(ix):
+        if not path.startswith(("src/primaite/game", "src/primaite/session", "src/primaite/simulator", "src/primaite/__init__")):
+            continue
+        called = {id(c.func) for c, _l in scope_nodes(fn, root) if isinstance(c, ast.Call)}
+        for n, lam in scope_nodes(fn, root):
+            if isinstance(n, ast.keyword) and n.arg in ("default_factory", "default", "key", "factory") and isinstance(n.value, (ast.Attribute, ast.Name)) \
+                    and id(n.value) not in called:
+                ch = attr_chain(n.value) or []
+                t = ".".join(ch)
+                if t.endswith("default_rng") or t in ("uuid4", "uuid.uuid4", "random.random", "time.time") or t.startswith(("secrets.",)):
+                    fake = ast.Call(func=n.value, args=[], keywords=[])
+                    ast.copy_location(fake, n.value)
+                    sites.append((fn, path, fake, "generator" if t.endswith("default_rng") else "unseeded"))
     n_unseeded = 0
     for fn, path, call, k in sites:
         owner = fn.short if fn else "<module>"
@@ -462,3 +478,7 @@ def check(ctx: Ctx) -> None:
     r3_4(ctx)
     r3_5(ctx, sites)
     r3_6(ctx)
+    # 'regardless of logging/output settings': an output switch may guard logging only (C04's R4.2)
+    from . import c04
+    with ctx.borrowed({"R4.2": "R3.7"}):
+        c04.r4_2(ctx)
